@@ -632,7 +632,8 @@ class PathSearch:
                     for d in b.defs.get(x, []):
                         self.inval.setdefault(d, set()).add(k)
 
-    def run(self, starts, blocked_nodes=frozenset(), blocked_edges=frozenset(), stop_at=frozenset(), start_env=None):
+    def run(self, starts, blocked_nodes=frozenset(), blocked_edges=frozenset(), stop_at=frozenset(), start_env=None,
+            mark_edges=frozenset(), unmark_nodes=frozenset()):
         """BFS; returns dict node -> (prev_state) for reached nodes. `starts`
         are node ids (entered with empty env). Traversal does not continue
         *through* blocked_nodes or stop_at nodes (stop_at nodes are reported as
@@ -640,6 +641,9 @@ class PathSearch:
         b = self.b
         seen = {}
         reached = {}
+        self.reached_unmarked = {}
+        marking = bool(mark_edges)
+        MARK = ("mark", 0)
         dq = deque()
         env0 = frozenset(start_env.items()) if start_env else frozenset()
         for s in starts:
@@ -654,6 +658,8 @@ class PathSearch:
                 continue
             if nid not in reached:
                 reached[nid] = st
+            if marking and nid not in self.reached_unmarked and (MARK, True) not in env:
+                self.reached_unmarked[nid] = st
             if nid in stop_at:
                 continue
             if len(seen) > self.limit:
@@ -692,11 +698,17 @@ class PathSearch:
                         envd = dict(env)
                     for k in inv:
                         envd.pop(k, None)
+            if marking and nid in unmark_nodes and (MARK, True) in env:
+                if envd is None:
+                    envd = dict(env)
+                envd.pop(MARK, None)
             new_env = frozenset(envd.items()) if envd is not None else env
             for (s, label) in n.succ:
                 if (nid, label) in blocked_edges:
                     continue
                 e2 = new_env
+                if marking and (nid, label) in mark_edges and (MARK, True) not in e2:
+                    e2 = frozenset(list(e2) + [(MARK, True)])
                 if self.sensitive and n.kind == "switch":
                     ck = self._cmpkey.get(nid)
                     if ck is not None:
@@ -727,7 +739,7 @@ class PathSearch:
                                 if cur != v:
                                     continue
                             elif cur is None and v is not None:
-                                d = dict(new_env)
+                                d = dict(e2)
                                 d[key] = v
                                 e2 = frozenset(d.items())
                 st2 = (s, e2)
@@ -760,6 +772,25 @@ def reach(body, starts, blocked_nodes=frozenset(), blocked_edges=frozenset(), st
     ps = PathSearch(body, sensitive)
     r = ps.run(starts, frozenset(blocked_nodes), frozenset(blocked_edges), frozenset(stop_at))
     return r, ps
+
+
+def root_invalidators(body, root):
+    """nodes after which a previously observed value of `root` is stale: the calls it
+    contains re-executing, definitions of the mutable locals it reads, and mutable
+    borrows of those locals"""
+    out = set()
+    for kind, x in _expr_locals(root):
+        if kind == "n":
+            out.add(x)
+        else:
+            for d in body.defs.get(x, []):
+                out.add(d)
+            for d in body.pdefs.get(x, []):
+                out.add(d)
+            for n in body.nodes:
+                if n.kind == "assign" and n.ev.get("rv") in ("ref", "rawptr") and n.ev["pl"]["l"] == x and (n.ev.get("mut") or n.ev.get("rv") == "rawptr"):
+                    out.add(n.id)
+    return out
 
 
 def succs(body, nid):
